@@ -64,6 +64,22 @@ def encodeTzif (f : TzFile) : List Nat :=
   | v => encHeader v f.v1 ++ encBody 4 f.v1 ++ encHeader v f.v2 ++ encBody 8 f.v2
           ++ [10] ++ f.footer ++ [10]
 
+/-- the header a block is written with -/
+def hdrOf (v : Version) (b : Block) : Header :=
+  ⟨v, b.utLocals.length, b.stdWalls.length, b.leaps.length, b.trans.length, b.types.length, b.names.length⟩
+
+/-- what every written block satisfies, decoded or not: counts fit 32 bits, at least one type and one
+designation byte, indicator arrays empty or one per type -/
+structure BlockShape (b : Block) : Prop where
+  nt : b.trans.length < 4294967296
+  nty : b.types.length < 4294967296
+  nn : b.names.length < 4294967296
+  nl : b.leaps.length < 4294967296
+  ty0 : b.types.length ≠ 0
+  nn0 : b.names.length ≠ 0
+  sw : b.stdWalls.length = 0 ∨ b.stdWalls.length = b.types.length
+  ul : b.utLocals.length = 0 ∨ b.utLocals.length = b.types.length
+
 /-- designation starting at index `at`: the bytes up to the next NUL; `none` if empty -/
 def nameAt (names : List Nat) (i : Nat) : Option (List Nat) :=
   let n := (names.drop i).takeWhile (fun c => c != 0)
